@@ -21,6 +21,7 @@ def valuation(c, fam):
 
 
 class FlagsH(Harness):
+    xcheck = 2
     name = "AtLeast.flags"
     function = "AtLeast.is_tautology"
     functions = ["AtLeast._equation_mm", "AtLeast.equation_bounds", "AtLeast.is_tautology", "AtLeast.is_contradiction"]
